@@ -2154,6 +2154,7 @@ func (pc *PeerConnection) AddICECandidate(candidate ICECandidateInit) error {
 	if err != nil {
 		return err
 	}
+	verifhook.Point("pc.addicecandidate.forward")
 
 	return pc.iceTransport.AddRemoteCandidate(&c)
 }
